@@ -1109,6 +1109,10 @@ def fromFunction(func, interface=None, imlevel=0, name=None):
     method = Method(name, func.__doc__)
     defaults = getattr(func, '__defaults__', None) or ()
     code = func.__code__
+    if imlevel > code.co_argcount:
+        # The implied leading arguments (``self``) have no names of their
+        # own: ``def method(*args)`` takes them through ``*args``.
+        imlevel = code.co_argcount
     # Number of positional arguments
     na = code.co_argcount - imlevel
     names = code.co_varnames[imlevel:]
